@@ -148,9 +148,24 @@ class Lower:
         return self._glob(q)
 
     def _glob(self, q):
-        ec = self.scope.program.enum_constants()
+        prog = self.scope.program
+        ec = prog.enum_constants()
         if q in ec and isinstance(ec[q], (int, str)):
             return ('const', ec[q])
+        # a module-level name bound once to a literal (a named constant) is that literal
+        mod, _, name = q.rpartition(".")
+        if mod in prog.classes and named_class_constant(prog, prog.classes[mod], name) is not None:
+            return _const_term(named_class_constant(prog, prog.classes[mod], name))
+        m = prog.modules.get(mod)
+        if m is not None and name in m.assigns and q not in CONTRACTED:
+            try:
+                v = ast.literal_eval(m.assigns[name])
+                n_bind = sum(1 for st in m.tree.body for t in (st.targets if isinstance(st, ast.Assign) else [getattr(st, 'target', None)])
+                             if isinstance(t, ast.Name) and t.id == name)
+                if n_bind == 1 and isinstance(v, (int, float, str, bool, tuple, type(None))):
+                    return _const_term(v)
+            except Exception:
+                pass
         return G(q)
 
     def e_Attribute(self, n):
@@ -181,8 +196,16 @@ class Lower:
                     sub = Lower(sc, {'self'}, {}, self.store)
                     # but "self" there is our self
                     return sub.e(body[0].value)
-        # a property that exactly one class of the package defines and that no reference covers: an extracted helper
         prog = self.scope.program
+        # a class-level literal constant read through self / cls (never stored on instances anywhere in the package)
+        if obj in (V('self'), V('cls')) and self.scope.cls is not None:
+            for c in prog.mro(self.scope.cls):
+                if name in c.class_attrs:
+                    v = named_class_constant(prog, c, name)
+                    if v is not None:
+                        return _const_term(v)
+                    break
+        # a property that exactly one class of the package defines and that no reference covers: an extracted helper
         if self.scope.inline_depth < 3 and not name.startswith('__'):
             cands = [f for f in prog.methods_named(name)]
             if len(cands) == 1 and cands[0].is_property and cands[0].qualname not in CONTRACTED \
@@ -222,8 +245,10 @@ class Lower:
         args, kw = self._args(n)
         # super().m(...)  ->  resolved base-class function applied to self
         if isinstance(n.func, ast.Attribute) and isinstance(n.func.value, ast.Call) and isinstance(n.func.value.func, ast.Name) \
-                and n.func.value.func.id == 'super' and not n.func.value.args and self.scope.cls is not None:
+                and n.func.value.func.id == 'super' and self.scope.cls is not None and self._super_args_ok(n.func.value):
             defining = self.scope.func.cls if self.scope.func is not None and self.scope.func.cls is not None else self.scope.cls
+            if n.func.value.args:           # super(Cls, self): start after Cls
+                defining = self.scope.program.classes[self.scope.program.qualify(self.scope.module, dotted(n.func.value.args[0]))]
             target = self.scope.program.lookup_method(self.scope.cls, n.func.attr, after=defining) \
                 if defining in self.scope.program.mro(self.scope.cls) else None
             if target is not None:
@@ -235,6 +260,17 @@ class Lower:
         if inl is not None:
             return inl
         return call(fn, args, kw)
+
+    def _super_args_ok(self, sup):
+        """super() or super(<a class of the package>, self)"""
+        if sup.keywords or len(sup.args) not in (0, 2):
+            return False
+        if not sup.args:
+            return True
+        d = dotted(sup.args[0])
+        q = self.scope.program.qualify(self.scope.module, d) if d else None
+        return q in self.scope.program.classes and isinstance(sup.args[1], ast.Name) and sup.args[1].id == 'self' \
+            and 'self' not in self.env
 
     def _inline(self, n, fn, args, kw):
         t = self._inline_block(n, fn, args, kw)
@@ -494,6 +530,47 @@ def _has_default(fi, name):
     allpos = a.posonlyargs + a.args
     withdef = {p.arg for p in allpos[len(allpos) - len(a.defaults):]} | {p.arg for p, d in zip(a.kwonlyargs, a.kw_defaults) if d is not None}
     return name in withdef
+
+
+_NCC = {}
+
+
+def named_class_constant(prog, ci, name):
+    """The literal a class-level `NAME = literal` stands for, when NAME is a named constant: bound in exactly one class of
+    the package, never stored on an instance or a class anywhere, never named by a getattr/hasattr/attrgetter string, and
+    read only through self / cls / the class itself (reads the lowering replaces by the literal). None otherwise."""
+    key = (id(prog), ci.qualname, name)
+    if key in _NCC:
+        return _NCC[key]
+    res = None
+    try:
+        v = ast.literal_eval(ci.class_attrs[name])
+    except Exception:
+        v = _NCC
+    ok = v is not _NCC and isinstance(v, (int, float, str, bool, tuple)) and not name.startswith('__') \
+        and name not in prog.stored_attr_names() \
+        and sum(1 for c in prog.classes.values() if name in c.class_attrs) == 1 \
+        and not any(f.name == name for f in prog.functions.values() if f.cls is not None)
+    if ok:
+        fam = {c.name for c in prog.subclasses(ci)} | {c.qualname for c in prog.subclasses(ci)}
+        for m in prog.modules.values():
+            for n in ast.walk(m.tree):
+                if isinstance(n, ast.Attribute) and n.attr == name:
+                    base = dotted(n.value) or ''
+                    if not isinstance(n.ctx, ast.Load) or not (base in ('self', 'cls') or base.split('.')[-1] in fam):
+                        ok = False
+                elif isinstance(n, ast.Constant) and n.value == name:
+                    ok = False              # the name appears as a string: getattr / hasattr / attrgetter / setattr may reach it
+        if ok:
+            res = v
+    _NCC[key] = res
+    return res
+
+
+def _const_term(v):
+    if isinstance(v, tuple):
+        return ('tuple', tuple(_const_term(x) for x in v))
+    return ('const', v)
 
 
 CONTRACTED = set()      # qualnames covered by a reference (set by the contract engine); those are never inlined
@@ -797,6 +874,8 @@ class FuncLower:
             return eff
         if isinstance(v, (ast.Yield, ast.YieldFrom)):
             return eff + (('yield', lw.e(v.value) if v.value is not None else NONE),)
+        if isinstance(v, ast.Call) and _observational(v):
+            return eff                      # logging / warnings / print: observable only on a side channel
         return eff + (('expr', lw.e(v)),)
 
     def loop(self, st, rest, lw, eff):
@@ -926,6 +1005,13 @@ class FuncLower:
                 out[name] = ('binop', 'Add', init, call(G('sum'), [('map', lam([p], c), iter_term)]))
         # temporaries and the loop target are dead after the loop
         return out
+
+
+def _observational(callnode):
+    d = dotted(callnode.func) or ""
+    head = d.split(".")[0]
+    return d == "print" or d.startswith("logging.") or d.startswith("warnings.warn") or \
+        (head in ("logger", "log", "_logger", "_log", "LOGGER") and d.split(".")[-1] in ("debug", "info", "warning", "error", "exception", "critical", "log"))
 
 
 def _as_load(node):
@@ -1131,6 +1217,10 @@ def norm(t):
         if t[1] in ('In', 'NotIn') and a[0] == 'const' and b[0] in ('list', 'tuple') and all(x[0] == 'const' for x in b[1]):
             r = a[1] in [x[1] for x in b[1]]
             return C(r if t[1] == 'In' else not r)
+        # membership in a display of constants does not depend on the kind of display (list / tuple / set) nor on the order
+        if t[1] in ('In', 'NotIn') and b[0] in ('list', 'tuple', 'set') and b[1] and all(x[0] == 'const' for x in b[1]) \
+                and (b[0] != 'tuple' or list(b[1]) != sorted(set(b[1]), key=repr)):
+            return ('cmp', t[1], a, ('tuple', tuple(sorted(set(b[1]), key=repr))))
         # comparison of a tuple of terms with a scalar broadcasts (numpy semantics) - used by the bounds kernel
         if t[1] in ('GtE', 'Gt', 'Lt', 'LtE') and a[0] == 'tuple' and a[1] and all(x[0] == 'sigma' or _is_sum(x) for x in a[1]) \
                 and b[0] != 'tuple':
